@@ -1,10 +1,11 @@
 #!/bin/bash
-# usage: tools/seed_batch.sh <prop> <A|B> "<tests>" "<needs>" [extra checks]  -> confirm + drill; appends to /tmp/seedlog.txt
+# usage: [SRCROOT=/tmp/wtout] [ID=<seed id>] tools/seed_batch.sh <prop> <A|B> "<tests>" "<needs>" [extra checks]  -> confirm + drill; appends to /tmp/seedlog.txt
 prop=$1; ab=$2; tests=$3; needs=$4; shift 4
 cd /verif
-id=$prop-$ab
+src=${SRCROOT:-/tmp/wtout}/$prop/$ab
+id=${ID:-$prop-$ab}
 echo "=== $id" >> /tmp/seedlog.txt
-tools/confirm_seed.sh /tmp/wtout/$prop/$ab $id $prop "$tests" "$needs" 2>&1 | grep -v conda >> /tmp/seedlog.txt
+tools/confirm_seed.sh $src $id $prop "$tests" "$needs" 2>&1 | grep -v conda >> /tmp/seedlog.txt
 if [ -d seeded/$id ]; then
   tools/drill.sh seeded/$id/patch.diff $prop "$@" 2>&1 | grep -v conda >> /tmp/seedlog.txt
 fi
